@@ -384,7 +384,7 @@ def _prepare_shipped(repo, work, tier, spec, env):
         if tier == "quick":
             depth = 2 if n <= 12 else (1 if n <= 60 else 0)
         else:
-            depth = 3 if n <= 8 else (2 if n <= 24 else 1)
+            depth = 3 if n <= 8 else (2 if n <= 24 else (1 if n <= 120 else 0))
         units.append(U(MACH, "VerifC19Shipped", weight=n * n, shipped=s["index"], depth=depth))
         if depth < 2:
             skipped.append("%s.%s (%d states): depth %d" % (s["pkg"].replace("github.com/pancsta/asyncmachine-go/", ""), s["name"], n, depth))
@@ -399,7 +399,7 @@ def c19(tier):
     return {"units": [], "prepare": _prepare_shipped,
             "bounds": {"schemas": "every exported package-level machine.Schema variable of the module found by a go/types scan (symgo discover), values dumped "
                        "natively from the current source", "histories": "every sequence of up to `depth` single-state Add1/Remove1 mutations from the empty machine "
-                       "(mutated state and kind symbolic): quick depth 2 for schemas <=12 states, 1 up to 60, 0 (well-formedness only) above; thorough 3 for <=8 states, 2 up to 24, 1 above"},
+                       "(mutated state and kind symbolic): quick depth 2 for schemas <=12 states, 1 up to 60, 0 (well-formedness only) above; thorough 3 for <=8 states, 2 up to 24, 1 up to 120, 0 above (the 148-state example schema)"},
             "outside": ["active sets only reachable by longer histories (the property quantifies over all reachable sets; an inductive argument over symbolic active sets was "
                         "not feasible with this engine, see DESIGN.md A.4)", "handlers (unbound, as the property says)"],
             "assumptions": MACH_ASSUME + ["mixin schemas may reference the documented base states (Start, Ready, Healthcheck, Heartbeat, ErrNetwork, ErrHandlerTimeout, Exception) "
